@@ -48,8 +48,17 @@ def main(argv=None) -> int:
             rep.extra_coverage["layout_neutral_twin"] = {"findings": fmt, "what": "all modules under rules re-generated with ast.unparse (layout/comments changed, behaviour identical) must stay silent"}
             if fmt:
                 raise AnalysisError(f"layout-neutral twin of {pid} is not silent (rule depends on formatting): {fmt[:3]}")
+            from selftest import neutralize
+
+            meta = neutralize.run([pid])
+            bad_meta = [m for m in meta if m["findings"] or m["analysis_errors"]]
+            rep.extra_coverage["metamorphic_twins"] = {"transformations": [m["transform"] for m in meta], "not_silent": bad_meta[:5],
+                "what": "the whole package rewritten by each behaviour-preserving transformation (renamed locals, flipped / split / merged conditions, else-after-jump, De Morgan, len comparisons, walrus split, conditional expressions as statements, named conditions, `not a in b` spelling, and all together); every rule of the property re-run on each program: must report nothing"}
+            if bad_meta:
+                raise AnalysisError(f"metamorphic twin of {pid} is not silent (the rule depends on spelling, not on behaviour): {[(m['transform'], (m['findings'] or m['analysis_errors'])[:2]) for m in bad_meta[:3]]}")
             sw = mutate.sweep(pid)
             rep.extra_coverage["mutation_sweep"] = sw
+            print(f"  metamorphic twins: {len(meta)} behaviour-preserving rewrites of the whole package, all silent")
             print(f"  self-test: {st['variants']} variants ok ({st.get('firing_ok', 0)} firing, {st.get('neutral_ok', 0)} neutral, {len(st.get('skipped', []))} skipped); "
                   f"mutation sweep: {sw['mutants_run']} single-point mutants of {sw['functions_mutated']} functions under rules: {sw['killed']} reported as violation, "
                   f"{sw['unanalysable_exit2']} failed closed (exit 2), {sw['survived']} unnoticed (equivalent / outside the decided clauses; listed in the evidence)")
